@@ -148,7 +148,7 @@ def run(ctx):
     rng = ctx.rng
     work = os.path.join(C.BUILD, "c18")
     shutil.rmtree(work, ignore_errors=True)
-    n = 500 if ctx.tier == "thorough" else 90
+    n = 1500 if ctx.tier == "thorough" else 90
     layouts, cases, index = [], [], []
     for i in range(n):
         style = ["acyclic", "cyclic", "cyclic", "bad"][i % 4]
@@ -184,6 +184,11 @@ def run(ctx):
         if stray:
             ctx.violation("directory entries that are not QML files were read as components: %s" % [os.path.basename(x) for x in stray][:4],
                           dict(rep, impl_output=stray, theorem_or_correspondence="S: components of a directory = its *.qml files"))
+            continue
+        # no import of these layouts carries a version or an alias: a diagnostic about either is spurious
+        spurious = sorted({m for _, r in runs for pd in r.get("project_diags", []) for m in pd["diags"] if "import version" in m or "aliased import" in m})
+        if spurious:
+            ctx.violation("a diagnostic about import versions / aliases on a layout that has none: %s" % spurious[:2], dict(rep, impl_output=spurious))
             continue
         # order independence, per source
         ref = {d["source"]: (d.get("ui"), tuple(sorted((x["msg"], x["start"], x["end"]) for x in d.get("diags", [])))) for d in runs[0][1]["docs"]}
